@@ -14,8 +14,9 @@
      entry, the next get() of that class makes a new instance, while the leaf
      keeps its old `_parent`.
 
-   InheritableSQLObject overrides none of sync / syncUpdate / expire: each acts
-   on the one instance it is called on.  Definitions only. *)
+   InheritableSQLObject.sync / syncUpdate / expire (since 47d20cb) act on the
+   instance and on every instance above it in its `_parent` chain, ancestors
+   first.  Definitions only. *)
 From Coq Require Import List ZArith Bool.
 From Model Require Import Inherit.
 Import ListNotations.
@@ -111,8 +112,7 @@ Inductive iop :=
 Record ist := mkist { db : st; im : imap }.
 Definition iinit : ist := mkist init iempty.
 
-(* sync / syncUpdate / expire on the one instance (direct updates: nothing is
-   ever queued, syncUpdate returns at once) *)
+(* sync / syncUpdate / expire (direct updates: nothing is ever queued, syncUpdate returns at once).  On one instance: *)
 Definition sync_at (s : st) (m : imap) (l : cls) (id : Z) : imap :=
   iupd m l id (mkslot (Some (val_of s l id)) (en (m l id))).
 (* expire(): the attributes go; an instance that was not expired already also
@@ -122,6 +122,14 @@ Definition expire_at (m : imap) (l : cls) (id : Z) : imap :=
   | None => m
   | Some _ => iupd m l id (mkslot None NAbsent)
   end.
+(* InheritableSQLObject.sync / expire (since 47d20cb): the `_parent` instance first, recursively, then the instance
+   itself -- the chain instances of the levels of chain l, root first *)
+Fixpoint sync_list (s : st) (m : imap) (ls : list cls) (id : Z) : imap :=
+  match ls with [] => m | a :: r => sync_list s (sync_at s m a id) r id end.
+Fixpoint expire_list (m : imap) (ls : list cls) (id : Z) : imap :=
+  match ls with [] => m | a :: r => expire_list (expire_at m a id) r id end.
+Definition sync_up (s : st) (m : imap) (l : cls) (id : Z) : imap := sync_list s m (chain l) id.
+Definition expire_up (m : imap) (l : cls) (id : Z) : imap := expire_list m (chain l) id.
 
 Definition on_inst (S : ist) (e : cls) (id : Z) (l : cls) (f : st -> imap -> imap) : ist * res :=
   match get_obj (db S) e id with
@@ -139,9 +147,9 @@ Definition istep (auto : bool) (S : ist) (o : iop) : ist * res :=
       | inl x => (S, RErr x)
       | inr s' => (mkist s' (im S), ROk)
       end
-  | Sync e id l => on_inst S e id l (fun s m => sync_at s m l id)
+  | Sync e id l => on_inst S e id l (fun s m => sync_up s m l id)
   | SyncUpdate e id l => on_inst S e id l (fun _ m => m)
-  | Expire e id l => on_inst S e id l (fun _ m => expire_at m l id)
+  | Expire e id l => on_inst S e id l (fun _ m => expire_up m l id)
   | Old (Create k a unk) =>
       match step auto (db S) (Create k a unk) with
       | (s', RObj ob) => (mkist s' (fresh_slots s' (chain k) (oid ob) (im S)), RObj ob)
